@@ -167,6 +167,25 @@ CHECKS.update({
         'DESIGN.md section 4 C17'),
 })
 
+CHECKS.update({
+    'C20': (
+        'Coq proof (bounds recogniser = the declarative grammar, both directions; three commas; no other characters; exit statuses) + vm_compute correspondence + CLI-vs-library differential runs',
+        'Theorems C20_* prove that the model of bounds_re.fullmatch accepts a string exactly when the whole string is four '
+        'decimals (NUMBER, NUMBER., .NUMBER, NUMBER.NUMBER with optional minus and single inner underscores) separated by '
+        'commas with optional white space around the commas, hence that it contains exactly three commas, that appending a '
+        'fifth field is rejected, that no other character can occur, that every failure maps to a non-zero exit status and '
+        'what guess_format returns for every extension.  Per run: grammar strings and 28 near misses of each go through '
+        'geometry_argument / bounds_argument and the model (acceptance and the exact rational value of each field); GeoJSON '
+        'strings and files with and without bbox members, unsupported / missing / malformed inputs; clip, extract-points '
+        '(hits, misses first / in the middle, empty spreadsheet rows x error / drop / fill) and export-geometry (explicit and '
+        'guessed formats) are run in-process through emsarray.cli.main on datasets written to disk and compared with the '
+        'library calls: file bytes or reopened dataset content, exit status, and absence of partial output on failure.',
+        'Trusted: Coq kernel; model CliArgs.v (ASCII only: Python\'s \\d and \\s also match non-ASCII digits and blanks, '
+        'which the generators do not produce).  PARTIAL: that each command equals its library call is a differential run '
+        '(implementation against implementation), not a theorem; argparse is not modelled.',
+        'DESIGN.md section 4 C20'),
+})
+
 NOT_YET = 'check not built yet in this session (work in progress; the design in DESIGN.md section 4 applies)'
 
 
